@@ -12,6 +12,7 @@ import coco
 from coco.b09 import elements as E, visitors as V
 from coco.b09.grammar import grammar
 from coco.b09.parser import BasicVisitor
+from tx.tier import THOROUGH, pick
 from tx import f2
 from tx.opaque import OpqExp
 from tx.p_c05 import ob, guarded
@@ -22,8 +23,9 @@ ALPH = "ABZ019"      # representatives: letters (incl. extremes) and digits; the
 
 def names(maxlen):
     for n in range(1, maxlen + 1):
-        for tail in itertools.product("ABCDEFGHIJKLMNOPQRSTUVWXYZ0123456789" if n <= 2 else ALPH, repeat=n - 1):
-            for head in ("ABCDEFGHIJKLMNOPQRSTUVWXYZ" if n <= 2 else "AQZ"):
+        full = pick(2, 3)
+        for tail in itertools.product("ABCDEFGHIJKLMNOPQRSTUVWXYZ0123456789" if n <= full else ALPH, repeat=n - 1):
+            for head in ("ABCDEFGHIJKLMNOPQRSTUVWXYZ" if n <= full else "AQZ"):
                 yield head + "".join(tail)
 
 
@@ -45,7 +47,7 @@ def truncation():
                 if not isinstance(got, E.BasicVar) or got.name() != exp or got.is_str_expr != (suffix == "$"):
                     bad.append((src, getattr(got, "name", lambda: got)()))
         return [ob("truncation/all accepted names up to 5 characters", not bad and n > 1000, "name[:2] + suffix", bad[:5] or "%d names" % n,
-                   bounded="all 1-2 character names, representative alphabets for longer ones, both suffixes")]
+                   bounded="all 1-%d character names, representative alphabets for longer ones (to 5), both suffixes" % pick(2, 3))]
     return guarded("truncation", run)
 
 
@@ -126,9 +128,113 @@ def positions_through_rules():
             st, _ = f2.build(rule, src, operand_rules={})
             text = st.basic09_text(1)
             res.append(ob("position/%s" % rule, re.search(r"(?<![A-Za-z_0-9])%s(?![A-Za-z0-9])" % re.escape(ident), text) is not None and "ABC" not in text, ident, text))
+        # positions where a numeric alternative is tried before the string one (print items, comparisons, function arguments):
+        # the identifiers in the emitted text are exactly those of the source names
+        more = [
+            ("statement", "PRINT ABC$", ["AB$"]), ("statement", "PRINT ABC$;ABC", ["AB$", "AB"]), ("statement", "PRINT ABC$(1)", ["arr_AB$"]),
+            ("statement", "PRINT@1,ABC$", ["AB$"]), ("statement", "PRINT ABC,ABC$,XYZ$", ["AB", "AB$", "XY$"]), ("statement", "PRINT NAME$", ["NA$"]),
+            ("statement", 'IF ABC$="X" THEN 10', ["AB$"]), ("statement", "XYZ=LEN(ABC$)", ["XY", "AB$"]), ("statement", "XYZ$=ABC$+LEFT$(ABC$,ABC)", ["XY$", "AB$", "AB$", "AB"]),
+            ("statement", "XYZ=ABC(ABC)+ABC", ["XY", "arr_AB", "AB", "AB"]), ("statement", "INPUT ABC$,ABC,ABC$(1)", ["AB$", "AB", "arr_AB$"]),
+            ("statement", "READ ABC$,ABC(2)", ["AB$", "arr_AB"]), ("statement", "LINE INPUT ABC$", ["AB$"]), ("statement", "HPRINT(1,2),ABC$", ["AB$"]),
+        ]
+        for rule, src, idents in more:
+            try:
+                st, _ = f2.build(rule, src, operand_rules={})
+                text = st.basic09_text(1)
+            except Exception as e:  # noqa
+                res.append(ob("position/%s" % src, False, idents, "%s: %s" % (type(e).__name__, str(e)[:100])))
+                continue
+            user = re.findall(r"(?<![A-Za-z_0-9.$])((?:arr_)?[A-Z][A-Z0-9]?\$?)(?![A-Za-z0-9_$])", re.sub(r'"[^"]*"', '""', text))
+            user = [u for u in user if u not in ("IF", "TO", "OR")]
+            res.append(ob("position/%s" % src, sorted(user) == sorted(idents), sorted(idents), dict(identifiers=sorted(user), text=text)))
         return res
     return guarded("position", run)
 
 
+def scan_generated():
+    gen = {}
+    for path in sorted(glob.glob(os.path.join(B09DIR, "*.py"))):
+        tree = ast.parse(open(path).read())
+        for node in ast.walk(tree):
+            if isinstance(node, ast.Call) and getattr(node.func, "id", getattr(node.func, "attr", None)) == "BasicVar" and node.args:
+                a = node.args[0]
+                if isinstance(a, ast.Constant) and isinstance(a.value, str):
+                    gen.setdefault(a.value, []).append("%s:%d" % (os.path.basename(path), node.lineno))
+                elif isinstance(a, ast.JoinedStr):
+                    lit = "".join(v.value if isinstance(v, ast.Constant) else "#" for v in a.values)
+                    gen.setdefault(lit, []).append("%s:%d" % (os.path.basename(path), node.lineno))
+    return gen
+
+
+def initializer_skips_generated():
+    """the variable initialiser sees every BasicVar, generated ones included: it assigns the user variables only"""
+    def run():
+        gen = scan_generated()
+        names_gen = sorted({g.replace("#", "1") for g in gen if not g.startswith("arr_")} | {"pid", "display", "play", "erno", "tmp_1", "tmp_1$", "tmp_10"})
+        user = ["A", "AB", "Z9", "A$", "AB$", "Z9$"]
+        v = V.VarInitializerVisitor()
+        for nm in names_gen + user:
+            v.visit_var(E.BasicVar(nm, nm.endswith("$")))
+        assigned = []
+        for l in v.assignment_lines:
+            assigned += re.findall(r"([A-Za-z_0-9$]+) :=", l.basic09_text(0))
+        return [ob("initializer/only user variables are assigned", sorted(assigned) == sorted(user), sorted(user), sorted(assigned),
+                   "shown: generated %r + user %r" % (names_gen, user))]
+    return guarded("initializer", run)
+
+
+def reserved_values():
+    """A name the tool reads as a value of its own (the error number ERNO, the keyboard INKEY$, TIMER-like nullary
+    tokens: every rule of the real grammar that is one upper-case literal and sits in an expression alternative) denotes
+    that value in every position: each variable position either refuses the name or yields the identifier an expression
+    yields for it.  Otherwise one source name would be two different BASIC09 identifiers depending on where it stands."""
+    def run():
+        from parsimonious import expressions as PE
+        res = []
+        words = set()
+        for name, rule in grammar.items():
+            lit = rule if isinstance(rule, PE.Literal) else None
+            if lit is not None and re.fullmatch(r"[A-Z]{3,}\$?", lit.literal):
+                # is it usable as an expression on its own?
+                for top in ("exp", "str_exp"):
+                    try:
+                        grammar[top].parse(lit.literal)
+                        words.add((lit.literal, top))
+                    except ParseError:
+                        pass
+        words |= {("ERNO", "exp")}
+        positions = {
+            "num_assign": "{w}=1", "str_assign": '{w}="X"', "for_statement": "FOR {w}=1 TO 2", "next_statement": "NEXT {w}",
+            "read_statement": "READ {w}", "input_statement": "INPUT {w}", "dim_statement": "DIM {w}(3)", "varptr_expr": "VARPTR({w})", "arr_assign": "{w}(1)=2",
+            "dim_statement ": "DIM {w}", "line_input_statement": "LINE INPUT {w}",
+        }
+        for w, top in sorted(words):
+            try:
+                reading = BasicVisitor().visit(grammar[top].parse(w)).basic09_text(0)
+            except Exception as e:  # noqa
+                res.append(ob("reserved/%s reads" % w, False, "a value", "%s: %s" % (type(e).__name__, e)))
+                continue
+            bad = {}
+            for rule, tmpl in positions.items():
+                src = tmpl.replace("{w}", w)
+                try:
+                    st, _ = f2.build(rule.strip(), src, operand_rules={})
+                except Exception:  # noqa  (refused: fine)
+                    continue
+                text = st.basic09_text(1)
+                if reading not in text:
+                    bad[src] = text
+            res.append(ob("reserved/%s" % w, not bad, "every variable position refuses %s or yields %r" % (w, reading), bad or "refused everywhere or %r" % reading))
+        res.append(ob("reserved/found", ("ERNO", "exp") in words, "ERNO among the nullary value tokens", sorted(words)))
+        return res
+    return guarded("reserved", run)
+
+
+def config_names_c09():
+    # a name in the string-size configuration denotes the same identifier as that name in the program (shared with C10)
+    from tx.p_c10 import config_names
+    return config_names()
+
+
 def obligations():
-    return truncation() + kinds_disjoint() + generated_identifiers() + variable_positions() + positions_through_rules()
+    return truncation() + kinds_disjoint() + generated_identifiers() + variable_positions() + positions_through_rules() + reserved_values() + initializer_skips_generated() + config_names_c09()
